@@ -9,6 +9,7 @@ import (
 	"go/types"
 	"math"
 	"math/big"
+	"strconv"
 	"strings"
 )
 
@@ -315,12 +316,48 @@ func (e *Enc) strLit(s string) Term {
 	if e.declared["uf:ext_strings_ToLower_r0"] && strings.ToLower(s) == s {
 		e.vc.decl(fmt.Sprintf("(assert (= (ext_strings_ToLower_r0 %s) %s))", name, name))
 	}
+	for _, uf := range []string{"ext_strconv_ParseInt_r1", "ext_strconv_ParseInt_r0", "ext_strconv_ParseFloat_r1", "ext_strconv_ParseFloat_r0"} {
+		if e.declared["uf:"+uf] {
+			e.literalFacts(uf, t, s)
+		}
+	}
 	if len(s) <= 12 {
 		for i := 0; i < len(s); i++ {
 			e.vc.decl(fmt.Sprintf("(assert (= (strat %s %s) %s))", name, e.intConstW(big.NewInt(int64(i)), 64).S, e.intConstW(big.NewInt(int64(s[i])), 8).S))
 		}
 	}
 	return t
+}
+
+// literalFacts states what a conversion function of package strconv answers on
+// a string constant of the program: the answer is computed here, with the real
+// function (the constant is part of the verified text, its value is known).
+func (e *Enc) literalFacts(uf string, lit Term, s string) {
+	zero, w64 := e.intConstW(big.NewInt(0), 64), e.intConstW(big.NewInt(64), 64)
+	switch uf {
+	case "ext_strconv_ParseInt_r1", "ext_strconv_ParseInt_r0":
+		v, err := strconv.ParseInt(s, 0, 64)
+		if uf == "ext_strconv_ParseInt_r1" {
+			if err == nil {
+				e.vc.decl(fmt.Sprintf("(assert (= (%s %s %s %s) 0))", uf, lit.S, zero.S, w64.S))
+			} else {
+				e.vc.decl(fmt.Sprintf("(assert (not (= (%s %s %s %s) 0)))", uf, lit.S, zero.S, w64.S))
+			}
+		} else if err == nil {
+			e.vc.decl(fmt.Sprintf("(assert (= (%s %s %s %s) %s))", uf, lit.S, zero.S, w64.S, e.intConstW(big.NewInt(v), 64).S))
+		}
+	case "ext_strconv_ParseFloat_r0":
+		if v, err := strconv.ParseFloat(s, 64); err == nil && !math.IsNaN(v) && !math.IsInf(v, 0) {
+			e.vc.decl(fmt.Sprintf("(assert (= (%s %s %s) %s))", uf, lit.S, w64.S, e.floatConst(v, SF64).S))
+		}
+	case "ext_strconv_ParseFloat_r1":
+		_, err := strconv.ParseFloat(s, 64)
+		if err == nil {
+			e.vc.decl(fmt.Sprintf("(assert (= (%s %s %s) 0))", uf, lit.S, w64.S))
+		} else {
+			e.vc.decl(fmt.Sprintf("(assert (not (= (%s %s %s) 0)))", uf, lit.S, w64.S))
+		}
+	}
 }
 
 func truncate(s string, n int) string {
